@@ -291,6 +291,15 @@ def run(prog: Program, res: Result, tier: str) -> None:
         res.add("R6", None, None, o.ok, f"[{o.rule}] {o.detail}", construct=o.construct, key=f"{o.rule}:{o.key}", where=o.where)
         res.obligations[-1].file, res.obligations[-1].line = o.file, o.line
 
+    # ---- R5b the frequencies the law is evaluated at (shared with C08.R7) -----------------------------------
+    from .c08 import _header_algebra
+    scratch = Result("C08", prog)
+    _header_algebra(prog, scratch, "R7")
+    for o in scratch.obligations:
+        if o.key in ("hdr:chan_freqs", "hdr:fmax", "hdr:fmin", "hdr:fcenter", "hdr:ftop"):
+            res.add("R5", None, None, o.ok, f"[{o.rule}] {o.detail}", construct=o.construct, key=f"{o.rule}:{o.key}", where=o.where)
+            res.obligations[-1].file, res.obligations[-1].line = o.file, o.line
+
     # ---- R4 valid width agreement -----------------------------------------------------------------------
     _valid_width(prog, res)
 
@@ -314,7 +323,7 @@ def run(prog: Program, res: Result, tier: str) -> None:
     res.floor("R2", 4)
     res.floor("R3", 13)
     res.floor("R4", 2)
-    res.floor("R5", 1)
+    res.floor("R5", 6)
     res.floor("R6", 8)
     if nsites < 9:
         raise AnalysisError(f"only {nsites} delay consumer sites found (9 confirmed by hand)")
